@@ -2,6 +2,7 @@
 import PymotoVerif.Drv.C13
 import PymotoVerif.Drv.C03
 import PymotoVerif.Drv.C01
+import PymotoVerif.Drv.C01b
 import PymotoVerif.Drv.C02
 import PymotoVerif.Drv.C05
 import PymotoVerif.Drv.C06
@@ -21,5 +22,5 @@ import PymotoVerif.Drv.C20
 namespace PymotoVerif.Drv
 open Lean
 def allHandlers : List (String × (Json → R Json)) :=
-  C13.handlers ++ C03.handlers ++ C01.handlers ++ C02.handlers ++ C05.handlers ++ C06.handlers ++ C07.handlers ++ C08.handlers ++ C09.handlers ++ C10.handlers ++ C11.handlers ++ C12.handlers ++ C14.handlers ++ C15.handlers ++ C16.handlers ++ C17.handlers ++ C18.handlers ++ C19.handlers ++ C20.handlers
+  C13.handlers ++ C03.handlers ++ C01.handlers ++ C01b.handlers ++ C02.handlers ++ C05.handlers ++ C06.handlers ++ C07.handlers ++ C08.handlers ++ C09.handlers ++ C10.handlers ++ C11.handlers ++ C12.handlers ++ C14.handlers ++ C15.handlers ++ C16.handlers ++ C17.handlers ++ C18.handlers ++ C19.handlers ++ C20.handlers
 end PymotoVerif.Drv
